@@ -35,8 +35,8 @@ STANDINS = r"""
 #[verifier::external_body] pub struct FilterSet { _p: core::marker::PhantomData<()> }
 #[verifier::external_body] pub struct Rest { _p: core::marker::PhantomData<()> }            // the runner's other fields
 pub struct SharedContext { pub action: Action, pub timer: Timer, pub thread_pool: ThreadPool }
-// the runner: the fields run_action reads (the others are irrelevant here)
-pub struct Divan { pub sorting_attr: SortingAttr, pub reverse_sort: bool, pub filters: FilterSet, pub rest: Rest }
+// the runner: the fields run_action reads, and the configured action (which it must NOT use: it is given the action to perform)
+pub struct Divan { pub action: Action, pub sorting_attr: SortingAttr, pub reverse_sort: bool, pub filters: FilterSet, pub rest: Rest }
 
 pub uninterp spec fn miri() -> bool;
 pub uninterp spec fn empty_after_filtering(d: Divan) -> bool;
